@@ -347,7 +347,7 @@ def run(F, rep):
 
     # ------------------------------------------------------------------ N: nullable results
     import nullres
-    nullres.run(F, rep, 'C01.N1', kinds=('rootNode', 'importSource.model', 'units(name)', 'variable(name)', 'component(name)', 'ast.parent', 'owningComponent', 'owningModel', 'parent', 'mathmlChildNode', 'variable.units', 'nonCommentChildNode'))
+    nullres.run(F, rep, 'C01.N1', kinds=('rootNode', 'importSource.model', 'units(name)', 'variable(name)', 'component(name)', 'ast.parent', 'owningComponent', 'owningModel', 'parent', 'mathmlChildNode', 'variable.units', 'nonCommentChildNode', 'weak.lock'))
 
     # ------------------------------------------------------------------ V: what the validator checks is what the later stages use
     rep.rule('C01.V1', 'the text of a <ci>/<cn> token is obtained through the comment-skipping accessors (nonCommentChildNode/-Count, mathmlChild*) both where the validator checks the variable name and where the analyser builds its AST: '
@@ -492,7 +492,7 @@ def run(F, rep):
     import core
     import c07
     if not getattr(rep, 'nested', False):
-        c07.run(F, core.Borrowed(rep, only={'C07.L1'}))
+        core.borrow(F, rep, c07, only={'C07.L1'})
 
     # ------------------------------------------------------------------ R2: self-recursion makes progress (library-wide)
     import recursion as _rec
